@@ -23,7 +23,7 @@ namespace CV
           | wh cond stmt | do stmt cond | for flat cond flat stmt
     cond := cmp:<eq|ne|lt|ge|gt|le>:<atom>:<atom> | t:<v> | nt:<v>          atom = c<n> | v<name> -/
 namespace GSParse
-open GenFlat GenStruct
+open GenFlat GenReg GenStruct
 
 def atom (t : String) : Option Atom :=
   if t.startsWith "c" then ((t.drop 1).toString.toNat?).bind fun n => if n < 256 then some (Atom.const (BitVec.ofNat 8 n)) else none
@@ -37,20 +37,28 @@ def cop (t : String) : Option COp :=
   if t == "eq" then some .eq else if t == "ne" then some .ne else if t == "lt" then some .lt
   else if t == "ge" then some .ge else if t == "gt" then some .gt else if t == "le" then some .le else none
 
-def flat (t : String) : Option FStmt :=
+def ra (t : String) : Option RA :=
+  if t == "rX" then some .x else if t == "rY" then some .y else (atom t).map RA.of
+
+/-- an assignable operand: `rX`, `rY`, `v<name>` (a bare name is accepted as a variable, as in stage 1 tokens) -/
+def lv (t : String) : Option LV :=
+  if t == "rX" then some .x else if t == "rY" then some .y
+  else if t.startsWith "v" then some (.var (t.drop 1).toString) else none
+
+def flat (t : String) : Option RStmt :=
   match t.splitOn ":" with
-  | ["asg", v, a] => (atom a).map fun a => FStmt.asg v a
-  | ["bin", v, o, a, b] => do let o ← bop o; let a ← atom a; let b ← atom b; some (FStmt.bin v o a b)
-  | ["oas", v, o, a] => do let o ← bop o; let a ← atom a; some (FStmt.opasg v o a)
-  | ["inc", v] => some (FStmt.inc v)
-  | ["dec", v] => some (FStmt.dec v)
+  | ["asg", v, a] => do let v ← lv v; let a ← ra a; some (RStmt.asg v a)
+  | ["bin", v, o, a, b] => do let v ← lv v; let o ← bop o; let a ← ra a; let b ← ra b; some (RStmt.bin v o a b)
+  | ["oas", v, o, a] => do let v ← lv v; let o ← bop o; let a ← ra a; some (RStmt.opasg v o a)
+  | ["inc", v] => (lv v).map RStmt.inc
+  | ["dec", v] => (lv v).map RStmt.dec
   | _ => none
 
 def condLeaf (t : String) : Option Cond :=
   match t.splitOn ":" with
-  | ["cmp", o, a, b] => do let o ← cop o; let a ← atom a; let b ← atom b; some (Cond.cmp o a b)
-  | ["t", v] => some (Cond.truth v)
-  | ["nt", v] => some (Cond.nottruth v)
+  | ["cmp", o, a, b] => do let o ← cop o; let a ← ra a; let b ← ra b; some (Cond.cmp o a b)
+  | ["t", v] => (lv v).map Cond.truth
+  | ["nt", v] => (lv v).map Cond.nottruth
   | _ => none
 
 /-- cond := and cond cond | or cond cond | not cond | leaf -/
@@ -436,13 +444,16 @@ def handle (st : DState) (line : String) : DState × String :=
     let kv := vars.filterMap fun t => match t.splitOn "=" with
       | [k, v] => v.toNat?.map fun n => (k, n)
       | _ => none
-    let names := kv.map (·.1)
-    let L : GenFlat.Layout := fun x => BitVec.ofNat 16 (0x80 + (names.idxOf x))
-    let m0 := kv.foldl (fun (m : Mem) p => m.write (L p.1) (BitVec.ofNat 8 p.2)) Mem.zero
+    let names := (kv.map (·.1)).filter fun n => n != "X" && n != "Y"
+    -- layout: cctmp at $80, the named variables from $81 on
+    let L : GenFlat.Layout := fun x => if x == "cctmp" then 0x80 else BitVec.ofNat 16 (0x81 + (names.idxOf x))
+    let m0 := kv.foldl (fun (m : Mem) p => if p.1 == "X" || p.1 == "Y" then m else m.write (L p.1) (BitVec.ofNat 8 p.2)) Mem.zero
+    let reg := fun (n : String) => BitVec.ofNat 8 ((kv.find? (·.1 == n)).map (·.2) |>.getD 0)
     match GSParse.program toks, fuel.toNat? with
     | some p, some f =>
-      (match GenStruct.sem L f m0 p with
-       | some m => (st, "ok " ++ " ".intercalate (names.map fun x => x ++ "=" ++ toString (m.read (L x)).toNat))
+      (match GenStruct.sem L f { mem := m0, x := reg "X", y := reg "Y" } p with
+       | some σ => (st, "ok " ++ " ".intercalate ((names.map fun x => x ++ "=" ++ toString (σ.mem.read (L x)).toNat) ++
+           ["X=" ++ toString σ.x.toNat, "Y=" ++ toString σ.y.toNat]))
        | none => (st, "fuel"))
     | _, _ => (st, "badreq")
   -- branch <line tokens>
